@@ -4,7 +4,11 @@ mod fam_builder;
 mod fam_plushy;
 mod fam_push;
 mod fam_sel;
+mod fam_lex;
 mod fam_stack;
+mod fam_wsel;
+mod mutants;
+mod selcommon;
 mod prims;
 mod report;
 mod rng;
@@ -39,7 +43,7 @@ fn main() {
         i += 1;
     }
     // keep panics of the code under test quiet; they are caught and reported per case
-    std::panic::set_hook(Box::new(|_| {}));
+    if std::env::var("UEC_LOUD").is_err() { std::panic::set_hook(Box::new(|_| {})); }
     let rep = match fam.as_str() {
         "stack" => fam_stack::run(&cfg),
         "sel" => fam_sel::run(&cfg),
@@ -48,6 +52,8 @@ fn main() {
         "push-run" => fam_push::run_run(&cfg),
         "builder" => fam_builder::run(&cfg),
         "builder-probes" => fam_builder::run_probes(&cfg),
+        "wsel" => fam_wsel::run(&cfg),
+        "lex" => fam_lex::run(&cfg),
         f => { eprintln!("unknown family {f}"); std::process::exit(2) }
     };
     let js = serde_json::to_string_pretty(&rep.to_json()).unwrap();
